@@ -142,11 +142,20 @@ def r1_preprocessing(ctx):
                 rep.ob('C13.R1', ctx.loc(fm, c), ctx.src(c), ok, 'min() only on a non-empty sequence (or with a default)' if ok else 'min() of a possibly empty list (a docstring without non-blank lines raises ValueError)', anchor=fm.qualname)
 
 
-def _state_constants(rd):
+def _state_constants(rd, mod=None):
+    """names bound once to a label: locals of the labeller (`TEXT = 'text'`, `TEXT = _TEXT`) and module-level constants (`_TEXT = 'text'`)"""
     out = {}
+    if mod is not None:
+        for nm, v in mod.assigns.items():
+            if isinstance(v, ast.Constant) and v.value in ('text', 'dsrc', 'dcnt', 'want'):
+                out[nm] = v.value
     for d in rd.defs:
-        if d.kind == 'assign' and isinstance(d.value, ast.Constant) and isinstance(d.value.value, str) and d.name.isupper() and len(rd.defs_of(d.name)) == 1:
+        if d.kind != 'assign' or len(rd.defs_of(d.name)) != 1 or not d.name.lstrip('_').isupper():
+            continue
+        if isinstance(d.value, ast.Constant) and isinstance(d.value.value, str):
             out[d.name] = d.value.value
+        elif isinstance(d.value, ast.Name) and d.value.id in out:
+            out[d.name] = out[d.value.id]
     return out
 
 
@@ -206,7 +215,7 @@ def r2_consume_emit(ctx):
     ev = lambda x: any(x is a for a in direct) or any(x is i for i in inits)
     # the dispatch on curr_state is evaluated per value of the finite state set (all definitions that reach
     # it assign one of the state constants)
-    states = _state_constants(rd)
+    states = _state_constants(rd, f.module)
     disp = [n for n in g.nodes if n.kind == 'test' and not n.dup and graph.in_loop_body(n, head.ast) and _state_truth(n.ast, 'curr_state', 'text', states) is not None]
     need(disp, 'C13.R2: dispatch on curr_state not found')
     for t in disp:
@@ -297,10 +306,7 @@ def r3_transitions(ctx):
     g = ctx.cfg(f)
     rd = ctx.rd(f)
     # state constants
-    consts_ = {}
-    for d in rd.defs:
-        if d.kind == 'assign' and isinstance(d.value, ast.Constant) and isinstance(d.value.value, str) and d.name.isupper() and len(rd.defs_of(d.name)) == 1:
-            consts_[d.name] = d.value.value
+    consts_ = _state_constants(rd, f.module)
     need(set(consts_.values()) >= {'text', 'dsrc', 'dcnt', 'want'}, 'C13.R3: state constants not recognised: %s' % consts_)
     heads = [n for n in g.nodes if n.kind == 'for' and not n.dup and not any(fr.kind == 'loop' for fr in n.frames)]
     head = heads[0]
@@ -370,10 +376,7 @@ def _label_machine(ctx):
     f = ctx.func(LABEL)
     g = ctx.cfg(f)
     rd = ctx.rd(f)
-    consts_ = {}
-    for d in rd.defs:
-        if d.kind == 'assign' and isinstance(d.value, ast.Constant) and isinstance(d.value.value, str) and d.name.isupper() and len(rd.defs_of(d.name)) == 1:
-            consts_[d.name] = d.value.value
+    consts_ = _state_constants(rd, f.module)
     need(set(consts_.values()) >= {'text', 'dsrc', 'dcnt', 'want'}, 'C13.R3: state constants not recognised: %s' % consts_)
     heads = [n for n in g.nodes if n.kind == 'for' and not n.dup and not any(fr.kind == 'loop' for fr in n.frames)]
     head = heads[0]
@@ -424,7 +427,13 @@ def r3b_prompt_is_source(ctx, rule='C13.R3b'):
                 continue
             if not (isinstance(d.value, ast.AST) and val_of(d.value) == 'dsrc'):
                 continue
-            facts = graph.guard_facts(dom, d.node)
+            facts = list(graph.guard_facts(dom, d.node))
+            # a recognition held in a local (`is_ps1 = _hasprefix(strip_line, ('>>>',))` ... `if is_ps1:`) counts like the call itself
+            for fa in list(facts):
+                if isinstance(fa.expr, ast.Name) and fa.polarity in (True, False) and fa.origin is not None and fa.origin.kind == 'branch':
+                    ds = rd.at(fa.origin.attrs['test'], fa.expr.id)
+                    if len(ds) == 1 and isinstance(ds[0].value, ast.Call) and '>>>' in ast.unparse(ds[0].value):
+                        facts.append(graph.Fact(ds[0].value, fa.polarity, fa.origin))
             # only prompt ('>>>') recognitions
             if not any(isinstance(fa.expr, ast.Call) and '>>>' in fa.text and fa.polarity is True for fa in facts):
                 continue
@@ -489,7 +498,7 @@ def r3c_blank_line_tests(ctx):
                    'emptiness is tested on the stripped line' if ok else
                    'the blank-line test looks at `%s`, which is not the stripped line: a line of blanks that is longer than the remembered indentation does not end the want / source block, '
                    'and the prose after it is labelled want' % ctx.src(x), anchor=LABEL)
-    rep.floor('C13.R3c', 'blank-line tests in the labeller', n, 2)
+    rep.floor('C13.R3c', 'blank-line tests in the labeller', n, 1)
 
 
 def r4_grouping(ctx):
